@@ -4,6 +4,7 @@
 use vstd::prelude::*;
 use std::collections::VecDeque;
 use std::fs::File;
+use vstd::std_specs::iter::IteratorSpec;
 
 verus! {
 
@@ -69,6 +70,38 @@ pub assume_specification<T, A: core::alloc::Allocator, R: core::ops::RangeBounds
 
 pub assume_specification<T>[ std::mem::drop ](_0: T) where T: std::marker::Destruct;
 
+/// `std::io::Write`: only `write_all` is given a meaning, through the uninterpreted relation
+/// `write_all_post`, which the axiom below defines for `File` (append; on error a prefix was appended).
+pub uninterp spec fn write_all_post<W: ?Sized>(pre: &W, post: &W, buf: Seq<u8>, ok: bool) -> bool;
+
+#[verifier::external_trait_specification]
+pub trait ExWrite {
+    type ExternalTraitSpecificationFor: std::io::Write;
+    fn write(&mut self, buf: &[u8]) -> std::io::Result<usize>;
+    fn flush(&mut self) -> std::io::Result<()>;
+    fn write_all(&mut self, buf: &[u8]) -> (r: std::io::Result<()>)
+        ensures write_all_post(&*old(self), &*final(self), buf@, r is Ok);
+}
+
+/// `post` is `pre` followed by a prefix of `total`
+pub open spec fn appended_prefix(post: Seq<u8>, pre: Seq<u8>, total: Seq<u8>) -> bool {
+    exists|k: int| 0 <= k <= total.len() && post == pre + #[trigger] total.subrange(0, k)
+}
+
+/// ASSUMPTION: `write_all` on a file appends the bytes; on error a prefix of them was appended.
+pub broadcast axiom fn axiom_file_write_all(pre: File, post: File, buf: Seq<u8>, ok: bool)
+    requires #[trigger] write_all_post(&pre, &post, buf, ok),
+    ensures
+        ok ==> file_data(post) == file_data(pre) + buf,
+        !ok ==> appended_prefix(file_data(post), file_data(pre), buf);
+
+/// ASSUMPTION: iterating `&VecDeque` yields references to its elements in order (mirrors vstd's spec of `iter()`).
+pub assume_specification<'a, T, A: core::alloc::Allocator>[ <&'a VecDeque<T, A> as core::iter::IntoIterator>::into_iter ](v: &'a VecDeque<T, A>) -> (r: std::collections::vec_deque::Iter<'a, T>)
+    ensures
+        r.remaining() == v@.map_values(|x: T| &x),
+        r.obeys_prophetic_iter_laws(),
+        r.decrease() is Some;
+
 // =============================================================================================
 // PART 2 -- pure specification vocabulary and proved lemmas
 // =============================================================================================
@@ -81,6 +114,51 @@ pub open spec fn piece(data: Seq<u8>, cs: nat, i: nat) -> Seq<u8> {
     data.subrange((i * cs) as int, if (i + 1) * cs <= data.len() { ((i + 1) * cs) as int } else { data.len() as int })
 }
 
+
+/// concatenation of a sequence of byte strings
+pub open spec fn flatten(s: Seq<Seq<u8>>) -> Seq<u8>
+    decreases s.len()
+{
+    if s.len() == 0 { Seq::<u8>::empty() } else { flatten(s.drop_last()) + s.last() }
+}
+
+pub proof fn lemma_flatten_push(s: Seq<Seq<u8>>, x: Seq<u8>)
+    ensures flatten(s.push(x)) == flatten(s) + x,
+{
+    assert(s.push(x).drop_last() =~= s);
+}
+
+pub proof fn lemma_flatten_concat(a: Seq<Seq<u8>>, b: Seq<Seq<u8>>)
+    ensures flatten(a + b) == flatten(a) + flatten(b),
+    decreases b.len(),
+{
+    if b.len() == 0 {
+        assert(a + b =~= a);
+        assert(flatten(a) + flatten(b) =~= flatten(a));
+    } else {
+        lemma_flatten_concat(a, b.drop_last());
+        assert((a + b).drop_last() =~= a + b.drop_last());
+        assert((a + b).last() == b.last());
+        assert(flatten(a) + (flatten(b.drop_last()) + b.last()) =~= (flatten(a) + flatten(b.drop_last())) + b.last());
+    }
+}
+
+/// if `x` is `base + flatten(s[..i])` followed by a prefix of `s[i]`, it is `base` followed by a prefix of `flatten(s)`
+pub proof fn lemma_prefix_step(x: Seq<u8>, base: Seq<u8>, s: Seq<Seq<u8>>, i: int)
+    requires 0 <= i < s.len(), appended_prefix(x, base + flatten(s.subrange(0, i)), s[i]),
+    ensures appended_prefix(x, base, flatten(s)),
+{
+    let k = choose|k: int| 0 <= k <= s[i].len() && x == (base + flatten(s.subrange(0, i))) + #[trigger] s[i].subrange(0, k);
+    let pre = flatten(s.subrange(0, i));
+    lemma_flatten_push(s.subrange(0, i), s[i]);
+    assert(s.subrange(0, i).push(s[i]) =~= s.subrange(0, i + 1));
+    lemma_flatten_concat(s.subrange(0, i + 1), s.subrange(i + 1, s.len() as int));
+    assert(s.subrange(0, i + 1) + s.subrange(i + 1, s.len() as int) =~= s);
+    let total = flatten(s);
+    assert(total == (pre + s[i]) + flatten(s.subrange(i + 1, s.len() as int)));
+    assert(total.subrange(0, pre.len() + k) =~= pre + s[i].subrange(0, k));
+    assert(x =~= base + total.subrange(0, pre.len() + k));
+}
 
 pub proof fn lemma_step(t: nat, cs: nat)
     requires cs > 0,
